@@ -648,6 +648,27 @@ func genNearMiss() {
 			emitQ("( "+q+" ) OR z", "", "src=nearmiss-embedded")
 		}
 	}
+	// almost value lists: one element of a parenthesised OR chain under a field is not a plain value
+	specials := [][]string{{"b", "~"}, {"b", "~", "2"}, {"b", "^", "2"}, {"w*"}, {"/r/"}, {"k", ":", "v"}, {"k", ":", "[", "1", "TO", "2", "]"}, {"NOT", "b"}, {"+", "b"}, {"-", "b"},
+		{"(", "b", ")"}, {"(", "b", "OR", "c", ")"}, {`"q"`}, {"5"}, {"x"}}
+	for n := 2; n <= 4; n++ {
+		for i := 0; i < n; i++ {
+			for _, sp := range specials {
+				w := []string{"a", ":", "("}
+				for j := 0; j < n; j++ {
+					if j > 0 {
+						w = append(w, "OR")
+					}
+					if j == i {
+						w = append(w, sp...)
+					} else {
+						w = append(w, pick([]string{"x", "y", "7", `"z z"`}))
+					}
+				}
+				emit(append(w, ")"))
+			}
+		}
+	}
 	for _, f := range nearForms {
 		emit(f)
 		for i := 0; i <= len(f); i++ {
